@@ -6,6 +6,7 @@
 
 include!(concat!(env!("OUT_DIR"), "/gram_mods.rs"));
 
+mod cli;
 mod corpus;
 mod eterm;
 mod fw;
